@@ -235,17 +235,19 @@ def store(a, layout):
 
 
 def norm_col(col):
-    """[name, kind, derived, cells, dtype-hint or None, layout] (older cases have 4 or 5 entries)"""
+    """[name, kind, derived, cells, dtype-hint or None, layout, state] (older cases have 4 - 6 entries)"""
     col = list(col)
     while len(col) < 5:
         col.append(None)
     if len(col) < 6:
         col.append("native")
+    if len(col) < 7:
+        col.append(None)
     return col
 
 
 def column_array(col, shape):
-    name, kind, derived, cells, hint, layout = norm_col(col)
+    name, kind, derived, cells, hint, layout = norm_col(col)[:6]
     vals = [cell_value(c) for c in cells]
     if kind == "s":
         arr = np.array([str(v) for v in vals], dtype="U") if vals else np.zeros(0, dtype="U1")
@@ -259,26 +261,220 @@ def column_array(col, shape):
     return out
 
 
-def build_data(shape, cols):
-    d = Data(label="d")
+# ------------------------------------------------------------------------------------------
+# object state: what the component objects and the Data object carry BEYOND the values.  Like the
+# layouts it is chosen independently of the values, travels to Lean as a tag, and is provably ignored
+# by the model (Props.C19.component_state_irrelevant): an exporter that reads any of it instead of
+# data[cid] / cid.label disagrees with Impl and Spec.
+#   column state : None or a list of  ["jit"]            CategoricalComponent.jitter('uniform')
+#                                     ["cats", k]        explicit categories= list (recipe k: unsorted, unused entries)
+#                                     ["units", cps]     Component.units
+#                                     ["old", cps]       added under this name, renamed afterwards
+#                                     ["from", j, fn]    derived from component j (fn 0 identity link, 1 text length)
+#   dataset state: None or a list of  ["seed", n]        np.random.seed(n) before the data is built (jitter offsets)
+#                                     ["label", cps]     Data.label (and the subset's label)
+#                                     ["restored"]       the Data went through GlueSerializer / GlueUnSerializer
+#                                     ["wcs"]            Data.coords is a WCS
+#                                     ["extras", [[kind, pos]...]]   components that are present but NOT requested
+# ------------------------------------------------------------------------------------------
+
+UNITS_POOL = ["km/s", "deg", "m s-1", "Jy/beam", "erg s^-1 cm^-2", "counts", "mag", "'", " ", "%", "x" * 75,
+              "\u00c5", "\u00b5m"]
+UNITS_ASCII = [u for u in UNITS_POOL if all(ord(ch) < 128 for ch in u)]
+OLD_NAMES = ["tmp_0", "old name", "Col#1", "\u00e9t\u00e9", "0", "Unnamed"]
+LABEL_POOL = ["my data", "a/b", "x[1].fits", "", "\u00e9\u2713\u00fc", "q'r\"s", "<t>&amp;", "nan", " lead ",
+              "100%", "#h,c", "tab\tnew\nline", "d" * 90, "PRIMARY", "0", "..", "{b}\\_$"]
+N_CATS_RECIPES = 6
+EXTRA_KINDS = 4   # 0 DateTimeComponent, 1 float with units, 2 jittered text, 3 derived
+
+
+def st_item(state, key):
+    for it in state or []:
+        if it[0] == key:
+            return it
+    return None
+
+
+def st_without(state, key):
+    out = [it for it in (state or []) if it[0] != key]
+    return out or None
+
+
+def TXT(cps):
+    return "".join(chr(x) for x in cps)
+
+
+def categories_for(arr, k):
+    """recipe k -> an explicit category list for the labels in `arr`: every label present, plus two
+    that no row uses, in an order that is NOT the sorted one (k = 0: reversed; else a fixed shuffle)"""
+    flat = arr.ravel().tolist()
+    isb = arr.dtype.kind == "S"
+    extra = [b"Zz_unused", b"Aa_unused"] if isb else ["Zz_unused", "Aa_unused"]
+    present = sorted(set(flat))
+    cats = present + [e for e in extra if e not in present]
+    if k == 0:
+        cats = cats[::-1]
+    elif k == 1:      # unused first: every code shifted, order of the present labels kept
+        cats = cats[len(present):] + present
+    else:
+        import random as _r
+        _r.Random(k).shuffle(cats)
+        if cats == sorted(cats):
+            cats = cats[1:] + cats[:1]
+    if arr.dtype.kind == "O":
+        out = np.empty(len(cats), dtype=object)
+        out[:] = cats
+        return out
+    return np.array(cats, dtype=arr.dtype.kind)
+
+
+def _txtlen(x):
+    """length of every label (a deterministic function of the VALUES of a text component)"""
+    a = np.asarray(x)
+    out = np.array([len(v.decode("latin-1")) if isinstance(v, bytes) else len(str(v)) for v in a.ravel().tolist()],
+                   dtype=np.int64)
+    return out.reshape(a.shape)
+
+
+def fix_derived(cols):
+    """Columns derived FROM another column take their kind / cells (/ dtype, layout) from the source;
+    an invalid reference is dropped.  Idempotent; applied by generators, shrinkers, run and line."""
+    cols = [norm_col(c) for c in cols]
+    for i, c in enumerate(cols):
+        it = st_item(c[6], "from")
+        if it is None:
+            continue
+        j, fn = it[1], it[2]
+        # glue has no derived TEXT components (get_kind: "Unknown data kind"), and a link cannot read an
+        # object-dtype component (ComponentLink.compute needs `.shape` of a scalar view)
+        ok = (c[2] and 0 <= j < i and not cols[j][2] and cols[j][5] != "object" and
+              ((fn == 0 and cols[j][1] != "s") or (fn == 1 and cols[j][1] == "s")))
+        if not ok:
+            c[6] = st_without(c[6], "from")
+            continue
+        src = cols[j]
+        if fn == 0:
+            c[1], c[3], c[4], c[5] = src[1], list(src[3]), src[4], src[5]
+        else:
+            c[1], c[4], c[5] = ["i", 64], None, "native"
+            c[3] = [Q(len(cell_value(x))) for x in src[3]]
+    return cols
+
+
+def sanitize(cols, comps, dst):
+    """make a (shrunk / hand-written) case well-formed: states only where they mean something"""
+    cols = fix_derived(cols)
+    for c in cols:
+        st = c[6]
+        if c[1] != "s" or c[2]:
+            st = st_without(st_without(st, "jit"), "cats")
+        if c[2]:
+            st = st_without(st, "units")
+        c[6] = st
+    if dst is not None:
+        if comps is None:
+            dst = st_without(dst, "extras")
+        if dst and any((c[2] and st_item(c[6], "from") is None) or c[5] == "object" for c in cols):
+            # a lambda link cannot be saved in a session, nor can an object array (allow_pickle=False)
+            dst = st_without(dst, "restored")
+    return cols, dst
+
+
+def make_wcs(nd):
+    from astropy.wcs import WCS
+    w = WCS(naxis=nd)
+    w.wcs.crpix = [1.0 + i for i in range(nd)]
+    w.wcs.cdelt = [0.5] * nd
+    w.wcs.crval = [10.0 * (i + 1) for i in range(nd)]
+    w.wcs.ctype = ["AX%d" % i for i in range(nd)]
+    return w
+
+
+def add_extra(d, kind, idx, shape):
+    """a component that is in the dataset but is not requested (components= leaves it out)"""
+    n = int(np.prod(shape))
+    if kind == 0:
+        t = (np.datetime64("2020-01-01T00:00:00") + np.arange(n).astype("m8[h]")).reshape(shape)
+        from glue.core.component import DateTimeComponent
+        return d.add_component(DateTimeComponent(t), "zq_when%d" % idx)
+    if kind == 1:
+        return d.add_component(Component((np.arange(n, dtype=float) * 1.5 - 1).reshape(shape), units="Jy"),
+                               "zq_flux%d" % idx)
+    if kind == 2:
+        t = np.array([("u", "v", "w")[i % 3] for i in range(n)]).reshape(shape)
+        comp = CategoricalComponent(t, categories=np.array(["w", "x", "u", "v"]), units="class")
+        comp.jitter("uniform")
+        return d.add_component(comp, "zq_cls%d" % idx)
+    cid = ComponentID("zq_der%d" % idx)
+    d.add_component_link(ComponentLink([d.pixel_component_ids[0]], cid))
+    return cid
+
+
+def restore_data(d, cids):
+    """the dataset as a restored session holds it"""
+    text = GlueSerializer(d).dumps()
+    d2 = GlueUnSerializer.loads(text).object("__main__")
+    by = {}
+    for c in d2.main_components + d2.derived_components:
+        by.setdefault(c.label, c)
+    return d2, [by[c.label] for c in cids]
+
+
+def build_data(shape, cols, dst=None):
+    seed = st_item(dst, "seed")
+    np.random.seed(seed[1] if seed else 0)
+    label = st_item(dst, "label")
+    kw = {}
+    if st_item(dst, "wcs"):
+        kw["coords"] = make_wcs(len(shape))
+    d = Data(label=TXT(label[1]) if label else "d", **kw)
+    extras = (st_item(dst, "extras") or [None, []])[1]
+    cols = fix_derived(cols)
     cids = []
-    first = None
-    for col in cols:
-        name = "".join(chr(x) for x in col[0])
-        arr = column_array(col, tuple(shape))
-        if col[2]:  # derived component: a link whose function returns the column's values
-            cid = ComponentID(name)
+    renames = []
+    for i, col in enumerate(cols + [None]):
+        for ei, (ek, epos) in enumerate(extras):
+            # (a link from the pixel coordinates needs a dataset that already has a shape)
+            if max(min(epos, len(cols)), 1 if ek == 3 else 0) == i:
+                add_extra(d, ek, ei, tuple(shape))
+        if col is None:
+            break
+        st = col[6]
+        name = TXT(col[0])
+        old = st_item(st, "old")
+        first_name = TXT(old[1]) if old else name
+        src = st_item(st, "from")
+        if col[2] and src is not None:   # derived from another component of the dataset
+            cid = ComponentID(first_name)
+            d.add_component_link(ComponentLink([cids[src[1]]], cid, using=None if src[2] == 0 else _txtlen))
+        elif col[2]:  # derived component: a link whose function returns the column's values
+            arr = column_array(col, tuple(shape))
+            cid = ComponentID(first_name)
             # a function of the pixel coordinates, so that it is correct under every view
             link = ComponentLink(list(d.pixel_component_ids), cid,
                                  using=lambda *idx, _v=arr: _v[tuple(np.asarray(i, dtype=int) for i in idx)])
             d.add_component_link(link)
-            cids.append(cid)
         else:
-            comp = CategoricalComponent(arr) if col[1] == "s" else Component(arr)
-            cid = d.add_component(comp, name)
-            cids.append(cid)
-            if first is None:
-                first = cid
+            arr = column_array(col, tuple(shape))
+            units = st_item(st, "units")
+            units = TXT(units[1]) if units else None
+            if col[1] == "s":
+                cats = st_item(st, "cats")
+                comp = CategoricalComponent(arr, categories=categories_for(arr, cats[1]) if cats else None, units=units)
+                if st_item(st, "jit"):
+                    comp.jitter("uniform")
+            else:
+                comp = Component(arr, units=units)
+            cid = d.add_component(comp, first_name)
+        if old:
+            renames.append((cid, name))
+        cids.append(cid)
+    for cid, name in renames:     # renamed after creation (all components exist by then)
+        cid.label = name
+    if st_item(dst, "restored"):
+        d0 = d
+        d, cids = restore_data(d, cids)
+        d._c19_keep = d0
     return d, cids
 
 
@@ -324,6 +520,8 @@ def export_data(tmp, fmt, d, cids, sel, comps, fname="f"):
     keep = [d]
     if sel is not None:
         sub = d.new_subset()
+        if d.label != "d":
+            sub.label = d.label
         sub.subset_state = MaskSubsetState(np.array(sel, dtype=bool).reshape(d.shape), d.pixel_component_ids)
         obj = sub
         keep.append(sub)
@@ -336,8 +534,8 @@ def export_data(tmp, fmt, d, cids, sel, comps, fname="f"):
     return path, keep
 
 
-def export_case(tmp, fmt, shape, cols, sel, comps, fname="f"):
-    d, cids = build_data(shape, cols)
+def export_case(tmp, fmt, shape, cols, sel, comps, fname="f", dst=None):
+    d, cids = build_data(shape, cols, dst)
     return export_data(tmp, fmt, d, cids, sel, comps, fname)
 
 
@@ -353,13 +551,13 @@ def load_back(fmt, path):
         raise
 
 
-def round_trip(fmt, shape, cols, sel, comps):
+def round_trip(fmt, shape, cols, sel, comps, dst=None):
     tmp = tempfile.mkdtemp(prefix="c19_")
     try:
         with warnings.catch_warnings():
             warnings.simplefilter("ignore")
             try:
-                path, keep = export_case(tmp, fmt, shape, cols, sel, comps)
+                path, keep = export_case(tmp, fmt, shape, cols, sel, comps, dst=dst)
             except UnicodeEncodeError:
                 return "unicode-error"
             loaded = load_back(fmt, path)
@@ -384,7 +582,7 @@ def kind_of(arr, comp):
     return "other-" + k
 
 
-def chain_trip(fmt_a, shape, cols, fmt_b, sel, comps):
+def chain_trip(fmt_a, shape, cols, fmt_b, sel, comps, dst=None):
     """export with A -> load_data -> export the LOADED dataset (or a subset of it) with B -> load_data.
     The second exporter is handed whatever storage the first reader produced (big-endian FITS
     arrays, memory-mapped read-only HDF5 arrays, object / bytes text columns ...)."""
@@ -393,7 +591,7 @@ def chain_trip(fmt_a, shape, cols, fmt_b, sel, comps):
         with warnings.catch_warnings():
             warnings.simplefilter("ignore")
             try:
-                path, keep = export_case(tmp, fmt_a, shape, cols, None, None)
+                path, keep = export_case(tmp, fmt_a, shape, cols, None, None, dst=dst)
             except UnicodeEncodeError:
                 return ["chain", "unicode-error", "N", "N"]
             loaded = load_back(fmt_a, path)
@@ -499,8 +697,8 @@ def random_layout(rng, kind):
 
 
 def make_col(rng, fmt, name, kind, n, derived=False, domain_only=True, risky=False, layout="native", hint=None,
-             fmt2=None):
-    """[name, kind, derived, cells, dtype hint, layout]; `fmt2`: a second format the values must also suit"""
+             fmt2=None, state=None):
+    """[name, kind, derived, cells, dtype hint, layout, state]; `fmt2`: a second format the values must also suit"""
     fmts = [fmt] + ([fmt2] if fmt2 else [])
     if kind == "f":
         if hint is None:
@@ -524,23 +722,120 @@ def make_col(rng, fmt, name, kind, n, derived=False, domain_only=True, risky=Fal
     else:
         pool = ints_for(tuple(kind), rng, risky, "fitsimg" if "fitsimg" in fmts else fmt)
         cells = [rng.choice(pool) for _ in range(n)]
-    return [N(name), kind, derived, cells, hint, layout]
+    return [N(name), kind, derived, cells, hint, layout, state]
 
 
 def lean_cols(cols):
-    """what the model sees: values and the layout tag (the dtype hint only picks the value pool)"""
+    """what the model sees: values, the layout tag and the object-state tag (the dtype hint only
+    picks the value pool)"""
     out = []
-    for c in cols:
-        c = norm_col(c)
-        out.append(c[:4] + [c[5]])
+    for c in fix_derived(cols):
+        out.append(c[:4] + [c[5], c[6]])
     return out
+
+
+def random_state(rng, kind, derived):
+    """object state of one component, drawn independently of its values"""
+    st = []
+    if kind == "s" and not derived:
+        if rng.random() < 0.6:
+            st.append(["jit"])
+        if rng.random() < 0.5:
+            st.append(["cats", rng.randrange(N_CATS_RECIPES)])
+    if not derived and rng.random() < 0.35:
+        st.append(["units", N(rng.choice(UNITS_POOL))])
+    if rng.random() < 0.25:
+        st.append(["old", N(rng.choice(OLD_NAMES))])
+    return st or None
+
+
+def decorate(rng, cols, comps, p_col=0.35, p_data=0.45):
+    """give the components and the Data object of a generated case a random object state"""
+    cols = [norm_col(c) for c in cols]
+    for i, c in enumerate(cols):
+        if c[2] and rng.random() < 0.5:
+            srcs = [j for j in range(i) if not cols[j][2] and cols[j][5] != "object"]
+            if srcs:
+                j = rng.choice(srcs)
+                c[6] = [["from", j, 1 if cols[j][1] == "s" else 0]]
+        if rng.random() < p_col:
+            c[6] = (c[6] or []) + (random_state(rng, c[1], c[2]) or []) or None
+    dst = [["seed", rng.randrange(1, 2 ** 31 - 1)]]
+    if rng.random() < p_data:
+        if rng.random() < 0.5:
+            dst.append(["label", N(rng.choice(LABEL_POOL))])
+        if rng.random() < 0.25:
+            dst.append(["wcs"])
+        if comps is not None and rng.random() < 0.6:
+            dst.append(["extras", [[rng.randrange(EXTRA_KINDS), rng.randint(0, len(cols))]
+                                   for _ in range(rng.randint(1, 2))]])
+        if rng.random() < 0.35:
+            dst.append(["restored"])
+    return sanitize(cols, comps, dst)
+
+
+def state_sig(cols, dst):
+    """the one kind of object state a (shrunk) case carries, 'plain', or 'mixed'"""
+    ks = set(it[0] for c in cols for it in (norm_col(c)[6] or []))
+    ks |= set(it[0] for it in (dst or []) if it[0] != "seed")
+    ks = sorted(ks)
+    return "plain" if not ks else ks[0] if len(ks) == 1 else "mixed"
+
+
+def state_shrinks(cols, comps, dst):
+    """plain objects first: if the failure survives, it is about values / layout, not object state"""
+    cols = [norm_col(c) for c in cols]
+    seed_only = [it for it in (dst or []) if it[0] == "seed"] or None
+    if any(c[6] for c in cols) or (dst or None) != seed_only:
+        yield [c[:6] + [None] for c in cols], comps, seed_only
+        if (dst or None) != seed_only:
+            yield cols, comps, seed_only
+        for ci, c in enumerate(cols):
+            if c[6]:
+                yield cols[:ci] + [c[:6] + [None]] + cols[ci + 1:], comps, dst
+        for ci, c in enumerate(cols):
+            if c[6] and len(c[6]) > 1:
+                for it in c[6]:
+                    yield cols[:ci] + [c[:6] + [[x for x in c[6] if x is not it]]] + cols[ci + 1:], comps, dst
+        for it in (dst or []):
+            if it[0] != "seed":
+                yield cols, comps, [x for x in dst if x is not it]
+        ex = st_item(dst, "extras")
+        if ex and len(ex[1]) > 1:
+            for k in range(len(ex[1])):
+                yield cols, comps, [x if x is not ex else ["extras", ex[1][:k] + ex[1][k + 1:]] for x in dst]
+
+
+def drop_column(cols, dst, k):
+    """cols without column k: references to it / positions after it are adjusted"""
+    out = []
+    for i, c in enumerate(norm_col(c) for c in cols):
+        if i == k:
+            continue
+        it = st_item(c[6], "from")
+        if it is not None:
+            st = st_without(c[6], "from")
+            if it[1] != k:
+                st = (st or []) + [["from", it[1] - (1 if it[1] > k else 0), it[2]]]
+            c = c[:6] + [st]
+        out.append(c)
+    ex = st_item(dst, "extras")
+    if ex:
+        dst = [x if x is not ex else ["extras", [[a, b - (1 if b > k else 0)] for a, b in ex[1]]] for x in dst]
+    return out, dst
+
+
+def drop_comp_index(comps, k):
+    if comps is None:
+        return None
+    return [i - (1 if i > k else 0) for i in comps if i != k]
 
 
 def masks_small(n):
     return [list(m) for m in itertools.product([False, True], repeat=n)]
 
 
-def random_case(rng, fmt, image, domain_only, risky=False, layouts=True):
+def random_case(rng, fmt, image, domain_only, risky=False, layouts=True, states=True):
     if image:
         shape = rng.choice([[2, 2], [2, 3], [1, 3], [3, 1], [2, 1, 2], [4], [2, 2, 2]])
     else:
@@ -578,7 +873,10 @@ def random_case(rng, fmt, image, domain_only, risky=False, layouts=True):
         comps = rng.sample(range(ncol), k)  # order of the list must not matter
     if comps is not None and fmt == "fitsimg" and all(cols[i][1] == "s" for i in comps):
         comps = None
-    return [fmt, shape, cols, sel, comps]
+    dst = None
+    if states:
+        cols, dst = decorate(rng, cols, comps)
+    return [fmt, shape, cols, sel, comps, dst]
 
 
 def layout_sig(cols):
@@ -587,17 +885,21 @@ def layout_sig(cols):
     return "native" if not ls else ls[0] if len(ls) == 1 else "mixed"
 
 
+def case_dst(case, k=5):
+    return case[k] if len(case) > k else None
+
+
 class RoundTrip(Family):
     batch = 40
     case_timeout = 60.0
 
     def line(self, case, pyout):
         fmt, shape, cols, sel, comps = case[:5]
-        return sx([self.name, [fmt, shape, lean_cols(cols), sel, comps], pyout])
+        return sx([self.name, [fmt, shape, lean_cols(cols), sel, comps, case_dst(case)], pyout])
 
     def run_impl(self, case):
         fmt, shape, cols, sel, comps = case[:5]
-        return round_trip(fmt, shape, cols, sel, comps)
+        return round_trip(fmt, shape, cols, sel, comps, case_dst(case))
 
     def setup(self):
         _freeze()
@@ -609,45 +911,63 @@ class RoundTrip(Family):
         return case[3] is not None and any(case[3]) and not all(case[3])
 
     def signature(self, case, po, res):
-        return {"br": res.get("br"), "fmt": case[0], "layout": layout_sig(case[2])}
+        return {"br": res.get("br"), "fmt": case[0], "layout": layout_sig(case[2]),
+                "state": state_sig(case[2], case_dst(case))}
 
     def describe(self, case):
         return {"fmt": case[0], "shape": case[1], "ncols": len(case[2]), "kinds": [c[1] for c in case[2]],
-                "layouts": [norm_col(c)[5] for c in case[2]], "sel": case[3], "comps": case[4]}
+                "layouts": [norm_col(c)[5] for c in case[2]], "sel": case[3], "comps": case[4],
+                "states": [norm_col(c)[6] for c in case[2]], "data_state": case_dst(case)}
 
     def shrink(self, case):
+        seen = [case]
+        for cand in self._shrink(case):
+            cols, dst = sanitize(cand[2], cand[4], cand[5])
+            cand = [cand[0], cand[1], cols, cand[3], cand[4], dst]
+            if cand not in seen:
+                seen.append(cand)
+                yield cand
+
+    def _shrink(self, case):
         fmt, shape, cols, sel, comps = case[:5]
+        dst = case_dst(case)
         cols = [norm_col(c) for c in cols]
-        # storage first: if the failure survives plain arrays it is about the values, not the layout
+        # object state first, then storage: if the failure survives plain objects / plain arrays it is
+        # about the values
+        for c2, k2, d2 in state_shrinks(cols, comps, dst):
+            yield [fmt, shape, c2, sel, k2, d2]
         if any(c[5] != "native" for c in cols):
-            yield [fmt, shape, [c[:5] + ["native"] for c in cols], sel, comps]
+            yield [fmt, shape, [c[:5] + ["native", c[6]] for c in cols], sel, comps, dst]
             for ci, c in enumerate(cols):
                 if c[5] != "native":
-                    yield [fmt, shape, cols[:ci] + [c[:5] + ["native"]] + cols[ci + 1:], sel, comps]
+                    yield [fmt, shape, cols[:ci] + [c[:5] + ["native", c[6]]] + cols[ci + 1:], sel, comps, dst]
         if comps is not None:
-            yield [fmt, shape, cols, sel, None]
-        if sel is not None and len(shape) == 1 and shape[0] > 1:
+            yield [fmt, shape, cols, sel, None, dst]
+        if len(shape) == 1 and shape[0] > 1:
             n = shape[0]
             for drop in range(n):
                 yield [fmt, [n - 1], [c[:3] + [c[3][:drop] + c[3][drop + 1:]] + c[4:] for c in cols],
-                       sel[:drop] + sel[drop + 1:], comps]
-        elif sel is None and len(shape) == 1 and shape[0] > 1:
-            n = shape[0]
-            for drop in range(n):
-                yield [fmt, [n - 1], [c[:3] + [c[3][:drop] + c[3][drop + 1:]] + c[4:] for c in cols], None, comps]
-        if len(cols) > 1 and comps is None:
+                       None if sel is None else sel[:drop] + sel[drop + 1:], comps, dst]
+        if len(cols) > 1:
             for drop in range(len(cols)):
-                rest = cols[:drop] + cols[drop + 1:]
-                if rest and not rest[0][2] and not (fmt == "fitsimg" and all(c[1] == "s" for c in rest)):
-                    yield [fmt, shape, rest, sel, None]
+                rest, d2 = drop_column(cols, dst, drop)
+                k2 = drop_comp_index(comps, drop)
+                if k2 is not None and not k2:
+                    continue
+                if fmt == "fitsimg" and all(rest[i][1] == "s" for i in (k2 if k2 is not None else range(len(rest)))):
+                    continue
+                if rest and not rest[0][2]:
+                    yield [fmt, shape, rest, sel, k2, d2]
         if sel is not None:
-            yield [fmt, shape, cols, None, comps]
+            yield [fmt, shape, cols, None, comps, dst]
         for ci, c in enumerate(cols):
+            if st_item(c[6], "from") is not None:
+                continue
             simple = S("a") if c[1] == "s" else Q(1)
             for k, cell in enumerate(c[3]):
                 if cell != simple:
                     nc = c[:3] + [c[3][:k] + [simple] + c[3][k + 1:]] + c[4:]
-                    yield [fmt, shape, cols[:ci] + [nc] + cols[ci + 1:], sel, comps]
+                    yield [fmt, shape, cols[:ci] + [nc] + cols[ci + 1:], sel, comps, dst]
 
 
 class Tab(RoundTrip):
@@ -805,6 +1125,122 @@ class Lay(RoundTrip):
                         yield [fmt, [3, 2], cols, sel, None]
 
 
+def state_variants(fmt, image):
+    """The structured object-state core: (cols, comps, dataset-state items) over one fixed table /
+    image.  Every kind of state alone, the combinations that matter (jitter x explicit categories,
+    derived components fed by stateful inputs, restored sessions of stateful components), and every
+    Data label / unit string of the pools."""
+    if not image:
+        n = 6
+        base = [["a", "f", [Q(1.5), NAN, Q(-2.25), Q(3), Q(0.5), Q(1024.125)], "f8"],
+                ["s", "s", [S(x) for x in ("ab", "Qx", "ab", "e5", "Qx", "x1")], None],
+                ["b", ["i", 32], [Q(1), Q(-2), Q(40000), Q(7), Q(0), Q(5)], None],
+                ["t", "s", [S(x) for x in ("Flux", "abc_d", "Flux", "Flux", "a-b", "abc_d")], None]]
+        txt = [1, 3]
+    else:
+        n = 6
+        base = [["a", "f", [Q(1.5), NAN, Q(-2.25), Q(3), Q(0.5), Q(1024.125)], "f8"],
+                ["b", ["i", 16], [Q(1), Q(-2), Q(300), Q(7), Q(0), Q(5)], None],
+                ["u", ["u", 8], [Q(1), Q(2), Q(255), Q(7), Q(0), Q(5)], None]]
+        txt = []
+        if fmt == "hdf5":
+            base.append(["s", "s", [S(x) for x in ("ab", "Qx", "ab", "e5", "Qx", "x1")], None])
+            txt = [3]
+
+    def cols_with(states, extra_cols=()):
+        cols = [[N(nm), kind, False, cells, hint, "native", states.get(i)] for i, (nm, kind, cells, hint) in enumerate(base)]
+        for pos, nm, src, fn, st in extra_cols:   # derived columns, inserted at `pos`
+            cols.insert(pos, [N(nm), None, True, [], None, "native", [["from", src, fn]] + (st or [])])
+        return fix_derived(cols)
+
+    out = []
+
+    def add(states=None, dst=None, comps=None, extra_cols=(), light=False):
+        out.append((cols_with(states or {}, extra_cols), comps, dst or [], light))
+
+    J, U = ["jit"], lambda u: ["units", N(u)]
+    O = lambda nm: ["old", N(nm)]
+    # --- categorical state
+    for i in txt[:1]:
+        add({i: [J]})
+        for k in range(N_CATS_RECIPES):
+            add({i: [["cats", k]]})
+        for k in range(4):
+            add({i: [J, ["cats", k]]})
+    if len(txt) > 1:
+        add({txt[0]: [J], txt[1]: [J, ["cats", 2]]})
+        add({txt[0]: [["cats", 3]], txt[1]: [J]})
+    # --- units (gridded FITS writes them into the header: every string of the pool)
+    for u in (UNITS_POOL if fmt == "fitsimg" else UNITS_POOL[:3] + UNITS_POOL[-2:]):
+        add({0: [U(u)]})
+    add({i: [U(UNITS_POOL[(3 * i + 1) % len(UNITS_ASCII)])] for i in range(len(base))})
+    if txt:
+        add({txt[0]: [U("class"), J]})
+    # --- renamed after creation
+    for i in range(len(base)):
+        add({i: [O(OLD_NAMES[i % len(OLD_NAMES)])]})
+    add({i: [O(OLD_NAMES[(i + 2) % len(OLD_NAMES)])] for i in range(len(base))})
+    add({0: [O("b")]})    # the old name is another component's (later) name
+    # --- derived components whose inputs carry state (and their own: renamed)
+    add({0: [U("km/s"), O("tmp_0")]}, extra_cols=[(1, "c", 0, 0, None)])
+    add({}, extra_cols=[(len(base), "c", 1 if image else 2, 0, [O("old name")])])
+    if txt:
+        i = txt[0]
+        add({}, extra_cols=[(i + 1, "L", i, 1, None)])
+        add({i: [J]}, extra_cols=[(i + 1, "L", i, 1, None)])
+        add({i: [J, ["cats", 0]], 0: [U("deg")]}, extra_cols=[(1, "c", 0, 0, None), (i + 2, "L", i + 1, 1, [O("tmp_0")])])
+    # --- the Data object: label, WCS
+    for lab in LABEL_POOL:
+        add({}, [["label", N(lab)]], light=True)
+    add({}, [["wcs"]])
+    add({0: [U("Jy/beam")]}, [["wcs"], ["label", N("a/b")]])
+    # --- restored session
+    add({}, [["restored"]])
+    add({0: [U("km/s"), O("tmp_0")]}, [["restored"], ["label", N("my data")]])
+    add({}, [["restored"], ["wcs"]], extra_cols=[(1, "c", 0, 0, None)])
+    if txt:
+        i = txt[0]
+        add({i: [J]}, [["restored"]])
+        add({i: [J, ["cats", 0]]}, [["restored"]])
+        add({i: [["cats", 2]], 0: [U("\u00c5")]}, [["restored"]], extra_cols=[(i + 1, "L", i, 1, None)])
+    # --- components that are present but not requested
+    allc = list(range(len(base)))
+    for kind in range(EXTRA_KINDS):
+        add({}, [["extras", [[kind, 0]]]], comps=allc, light=True)
+        add({}, [["extras", [[kind, len(base)], [(kind + 1) % EXTRA_KINDS, 1]]]], comps=allc[::-1], light=True)
+    add({0: [U("deg")]}, [["extras", [[0, 1], [2, 2]]], ["restored"]], comps=allc[:2])
+    return out
+
+
+class St(RoundTrip):
+    """Exhaustive object-state core: every exporter x every kind of state a component / Data object
+    carries beyond its values x one fixed table / image x whole / proper / empty subset.
+    Seed-independent (the np.random seed of a case is its index)."""
+    name = "st"
+    budget_share = 2.0
+    exhaustive = True
+
+    def cases(self, tier, rng):
+        k = 0
+        proper6 = [True, False, True, True, False, True]
+        for fmt in TABLE_FORMATS:
+            for cols, comps, dst, light in state_variants(fmt, False):
+                for sel in (None, proper6, [False] * 6):
+                    if sel is not None and not any(sel) and (fmt == "latex" or light):
+                        continue
+                    k += 1
+                    c2, d2 = sanitize(cols, comps, [["seed", 100 + k]] + dst)
+                    yield [fmt, [6], c2, sel, comps, d2]
+        for fmt in IMAGE_FORMATS:
+            for cols, comps, dst, light in state_variants(fmt, True):
+                for shape, sel in (([2, 3], None), ([2, 3], proper6), ([3, 1, 2], proper6), ([2, 3], [False] * 6)):
+                    if light and shape == [3, 1, 2]:
+                        continue
+                    k += 1
+                    c2, d2 = sanitize(cols, comps, [["seed", 100 + k]] + dst)
+                    yield [fmt, shape, c2, sel, comps, d2]
+
+
 def both_kinds(fa, fb):
     kb = kinds_for(fb)
     return [k for k in kinds_for(fa) if k in kb]
@@ -837,7 +1273,9 @@ def chain_case(rng, fa, fb, image):
         comps = rng.sample(range(nd1), rng.randint(1, nd1))
         if fb == "fitsimg" and all(kinds1[i] == "s" for i in comps):
             comps = None
-    return [fa, shape, cols, fb, sel, comps]
+    # object state of the dataset the FIRST exporter is handed (the loaded dataset has none of it)
+    cols, dst = decorate(rng, cols, None)
+    return [fa, shape, cols, fb, sel, comps, dst]
 
 
 class Chain(Family):
@@ -886,12 +1324,12 @@ class Chain(Family):
                 yield chain_case(rng, fa, fb, False)
 
     def line(self, case, pyout):
-        fa, shape, cols, fb, sel, comps = case
-        return sx([self.name, [fa, shape, lean_cols(cols), fb, sel, comps], pyout])
+        fa, shape, cols, fb, sel, comps = case[:6]
+        return sx([self.name, [fa, shape, lean_cols(cols), fb, sel, comps, case_dst(case, 6)], pyout])
 
     def run_impl(self, case):
-        fa, shape, cols, fb, sel, comps = case
-        return chain_trip(fa, shape, cols, fb, sel, comps)
+        fa, shape, cols, fb, sel, comps = case[:6]
+        return chain_trip(fa, shape, cols, fb, sel, comps, case_dst(case, 6))
 
     def setup(self):
         _freeze()
@@ -903,35 +1341,49 @@ class Chain(Family):
         return case[4] is not None and any(case[4]) and not all(case[4])
 
     def signature(self, case, po, res):
-        return {"br": res.get("br"), "fmt": case[3], "fmtA": case[0], "layout": layout_sig(case[2])}
+        return {"br": res.get("br"), "fmt": case[3], "fmtA": case[0], "layout": layout_sig(case[2]),
+                "state": state_sig(case[2], case_dst(case, 6))}
 
     def describe(self, case):
         return {"fmtA": case[0], "fmtB": case[3], "shape": case[1], "kinds": [c[1] for c in case[2]],
-                "layouts": [norm_col(c)[5] for c in case[2]], "sel": case[4], "comps": case[5]}
+                "layouts": [norm_col(c)[5] for c in case[2]], "sel": case[4], "comps": case[5],
+                "states": [norm_col(c)[6] for c in case[2]], "data_state": case_dst(case, 6)}
 
     def shrink(self, case):
-        fa, shape, cols, fb, sel, comps = case
+        seen = [case]
+        for cand in self._shrink(case):
+            cols, dst = sanitize(cand[2], None, cand[6])   # hop 1 exports everything: no `extras`
+            cand = cand[:2] + [cols] + cand[3:6] + [dst]
+            if cand not in seen:
+                seen.append(cand)
+                yield cand
+
+    def _shrink(self, case):
+        fa, shape, cols, fb, sel, comps = case[:6]
+        dst = case_dst(case, 6)
         cols = [norm_col(c) for c in cols]
+        for c2, _k, d2 in state_shrinks(cols, None, dst):
+            yield [fa, shape, c2, fb, sel, comps, d2]
         if any(c[5] != "native" for c in cols):
-            yield [fa, shape, [c[:5] + ["native"] for c in cols], fb, sel, comps]
+            yield [fa, shape, [c[:5] + ["native", c[6]] for c in cols], fb, sel, comps, dst]
             for ci, c in enumerate(cols):
                 if c[5] != "native":
-                    yield [fa, shape, cols[:ci] + [c[:5] + ["native"]] + cols[ci + 1:], fb, sel, comps]
+                    yield [fa, shape, cols[:ci] + [c[:5] + ["native", c[6]]] + cols[ci + 1:], fb, sel, comps, dst]
         if comps is not None:
-            yield [fa, shape, cols, fb, sel, None]
+            yield [fa, shape, cols, fb, sel, None, dst]
         if sel is not None:
-            yield [fa, shape, cols, fb, None, comps]
+            yield [fa, shape, cols, fb, None, comps, dst]
         if len(cols) > 1 and comps is None:
             for drop in range(len(cols)):
-                rest = cols[:drop] + cols[drop + 1:]
+                rest, d2 = drop_column(cols, dst, drop)
                 if "fitsimg" in (fa, fb) and (rest[0][1] == "s" or all(c[1] == "s" for c in rest)):
                     continue
-                yield [fa, shape, rest, fb, sel, None]
+                yield [fa, shape, rest, fb, sel, None, d2]
         if len(shape) == 1 and shape[0] > 1:
             n = shape[0]
             for drop in range(n):
                 yield [fa, [n - 1], [c[:3] + [c[3][:drop] + c[3][drop + 1:]] + c[4:] for c in cols], fb,
-                       None if sel is None else sel[:drop] + sel[drop + 1:], comps]
+                       None if sel is None else sel[:drop] + sel[drop + 1:], comps, dst]
 
 
 class Sess(Family):
@@ -946,16 +1398,16 @@ class Sess(Family):
         for i in range(nr):
             fmt = TABLE_FORMATS[i % len(TABLE_FORMATS)]
             image = fmt in IMAGE_FORMATS and rng.random() < 0.5
-            fmt_, shape, cols, sel, comps = random_case(rng, fmt, image, True)
+            fmt_, shape, cols, sel, comps, dst = random_case(rng, fmt, image, True)
             n = int(np.prod(shape))
-            # same names / kinds / dtypes / layouts, new values
-            cols2 = [make_col(rng, fmt, "".join(chr(x) for x in c[0]), c[1], n, c[2], True, layout=c[5],
-                              hint=c[4] or ("f8" if c[1] == "f" else None)) for c in cols]
-            yield [fmt, shape, cols, sel, comps, cols2]
+            # same names / kinds / dtypes / layouts / object states, new values
+            cols2 = fix_derived([make_col(rng, fmt, "".join(chr(x) for x in c[0]), c[1], n, c[2], True, layout=c[5],
+                                          hint=c[4] or ("f8" if c[1] == "f" else None), state=c[6]) for c in cols])
+            yield [fmt, shape, cols, sel, comps, cols2, dst]
 
     def line(self, case, pyout):
-        fmt, shape, cols, sel, comps, cols2 = case
-        return sx([self.name, [fmt, shape, lean_cols(cols), sel, comps, lean_cols(cols2)], pyout])
+        fmt, shape, cols, sel, comps, cols2 = case[:6]
+        return sx([self.name, [fmt, shape, lean_cols(cols), sel, comps, lean_cols(cols2), case_dst(case, 6)], pyout])
 
     def setup(self):
         _freeze()
@@ -964,12 +1416,13 @@ class Sess(Family):
         _collect()
 
     def run_impl(self, case):
-        fmt, shape, cols, sel, comps, cols2 = case
+        fmt, shape, cols, sel, comps, cols2 = case[:6]
+        dst = case_dst(case, 6)
         tmp = tempfile.mkdtemp(prefix="c19_")
         try:
             with warnings.catch_warnings():
                 warnings.simplefilter("ignore")
-                path, keep = export_case(tmp, fmt, shape, cols, sel, comps)
+                path, keep = export_case(tmp, fmt, shape, cols, sel, comps, dst=dst)
                 fac = factory_for(fmt)
                 try:
                     loaded = as_list(load_data(path) if fac is None else load_data(path, factory=fac))
@@ -987,7 +1440,7 @@ class Sess(Family):
                 if nlogs == 0:
                     inline = True
                 # overwrite the file (atomically: the old one may still be memory-mapped) with new values
-                path2, keep2 = export_case(tmp, fmt, shape, cols2, sel, comps, fname="g")
+                path2, keep2 = export_case(tmp, fmt, shape, cols2, sel, comps, fname="g", dst=dst)
                 os.replace(path2, path)
                 dc2 = GlueUnSerializer.loads(text).object("__main__")
                 out = ["sess", bool(inline), ["ok", [canon_data(x) for x in dc2]]]
@@ -1000,23 +1453,49 @@ class Sess(Family):
         return True
 
     def signature(self, case, po, res):
-        return {"br": res.get("br"), "fmt": case[0], "layout": layout_sig(case[2])}
+        return {"br": res.get("br"), "fmt": case[0], "layout": layout_sig(case[2]),
+                "state": state_sig(case[2], case_dst(case, 6))}
 
     def describe(self, case):
-        return {"fmt": case[0], "shape": case[1], "kinds": [c[1] for c in case[2]], "sel": case[3], "comps": case[4]}
+        return {"fmt": case[0], "shape": case[1], "kinds": [c[1] for c in case[2]], "sel": case[3], "comps": case[4],
+                "states": [norm_col(c)[6] for c in case[2]], "data_state": case_dst(case, 6)}
 
     def shrink(self, case):
-        fmt, shape, cols, sel, comps, cols2 = case
-        if any(norm_col(c)[5] != "native" for c in cols + cols2):
-            yield [fmt, shape, [norm_col(c)[:5] + ["native"] for c in cols], sel, comps,
-                   [norm_col(c)[:5] + ["native"] for c in cols2]]
+        seen = [case]
+        for cand in self._shrink(case):
+            cols, dst = sanitize(cand[2], cand[4], cand[6])
+            cols2, dst = sanitize(cand[5], cand[4], dst)
+            cand = [cand[0], cand[1], cols, cand[3], cand[4], cols2, dst]
+            if cand not in seen:
+                seen.append(cand)
+                yield cand
+
+    def _shrink(self, case):
+        fmt, shape, cols, sel, comps, cols2 = case[:6]
+        dst = case_dst(case, 6)
+        cols, cols2 = [norm_col(c) for c in cols], [norm_col(c) for c in cols2]
+        seed_only = [it for it in (dst or []) if it[0] == "seed"] or None
+        if any(c[6] for c in cols) or (dst or None) != seed_only:
+            yield [fmt, shape, [c[:6] + [None] for c in cols], sel, comps, [c[:6] + [None] for c in cols2], seed_only]
+            for it in (dst or []):
+                if it[0] != "seed":
+                    yield [fmt, shape, cols, sel, comps, cols2, [x for x in dst if x is not it]]
+            for ci in range(len(cols)):
+                if cols[ci][6]:
+                    yield [fmt, shape, cols[:ci] + [cols[ci][:6] + [None]] + cols[ci + 1:], sel, comps,
+                           cols2[:ci] + [cols2[ci][:6] + [None]] + cols2[ci + 1:], dst]
+        if any(c[5] != "native" for c in cols + cols2):
+            yield [fmt, shape, [c[:5] + ["native", c[6]] for c in cols], sel, comps,
+                   [c[:5] + ["native", c[6]] for c in cols2], dst]
         if comps is not None:
-            yield [fmt, shape, cols, sel, None, cols2]
+            yield [fmt, shape, cols, sel, None, cols2, dst]
         if sel is not None:
-            yield [fmt, shape, cols, None, comps, cols2]
+            yield [fmt, shape, cols, None, comps, cols2, dst]
         if len(cols) > 1 and comps is None:
             for drop in range(1, len(cols)):
-                yield [fmt, shape, cols[:drop] + cols[drop + 1:], sel, None, cols2[:drop] + cols2[drop + 1:]]
+                rest, d2 = drop_column(cols, dst, drop)
+                rest2, _ = drop_column(cols2, dst, drop)
+                yield [fmt, shape, rest, sel, None, rest2, d2]
 
 
 class Registry(Family):
@@ -1065,8 +1544,8 @@ class ParseNum(Family):
 PROP = Property(
     id="C19",
     title="Exported data files load back to the same table or image",
-    theorems=["C19.export_import_channel", "C19.channels_honour_contract", "C19.export_import_table", "C19.export_import_fitsImage_partial", "C19.subset_rows_exact", "C19.export_order", "C19.export_order_filter_is_a_set", "C19.image_mask_fill", "C19.autotyped_stable", "C19.autotyped_flips_iff", "C19.autotyped_numeric_text_flips", "C19.fitsImage_blank_witness", "C19.fitsImage_int64_witness", "C19.autotyped_flip_witness", "C19.ascii_empty_text_witness", "C19.hdf5_zero_fill_ambiguous", "C19.layout_irrelevant", "C19.relayout_values", "C19.export_import_any_layout", "C19.export_import_chain"],
-    families=[Registry(), ParseNum(), Lay(), Tab(), Img(), Chain(), Sess()],
+    theorems=["C19.export_import_channel", "C19.channels_honour_contract", "C19.export_import_table", "C19.export_import_fitsImage_partial", "C19.subset_rows_exact", "C19.export_order", "C19.export_order_filter_is_a_set", "C19.image_mask_fill", "C19.autotyped_stable", "C19.autotyped_flips_iff", "C19.autotyped_numeric_text_flips", "C19.fitsImage_blank_witness", "C19.fitsImage_int64_witness", "C19.autotyped_flip_witness", "C19.ascii_empty_text_witness", "C19.hdf5_zero_fill_ambiguous", "C19.layout_irrelevant", "C19.relayout_values", "C19.export_import_any_layout", "C19.restate_values", "C19.component_state_irrelevant", "C19.export_import_chain"],
+    families=[Registry(), ParseNum(), Lay(), St(), Tab(), Img(), Chain(), Sess()],
     trusted_base=["astropy (io.ascii, io.fits, io.votable, table), h5py, pandas.to_numeric, numpy: exercised, not modelled; "
                   "each format is a channel with a stated contract (Model/Export.lean: idealRead / asciiRead)"],
     assumptions=["codec contracts: a written column comes back under nameRepr with the same values (FITS BLANK -> NaN as float64; "
